@@ -2304,7 +2304,9 @@ def distributed_shampoo(
     if pspec and len(pspec) > 1:
       return jax.sharding.PartitionSpec(*pspec[1:])
     else:
-      return []
+      # The (N-1)-d bucket sizes of a replicated parameter are replicated; an
+      # empty list would drop their leaf from the partition-spec tree.
+      return jax.sharding.PartitionSpec()
 
   def sharded_init_partition_spec_fn(params, params_partition_spec,
                                      partition_spec_for_statistics):
